@@ -545,6 +545,82 @@ func vfC03Run(t *testing.T, dir string, c *vfC03Case) (violation string, notes [
 				}
 			}
 		}
+		// 4. subtree cut (RFC 8020): a validated NXDOMAIN for c-<Q1> may answer only names at or below it, label by
+		// label, in its class, for CD=0 clients. The stub never answers NXDOMAIN, so any NXDOMAIN stems from the cut.
+		below := func(name, anc string) bool {
+			n, a := dns.SplitDomainName(vfFoldASCII(name)), dns.SplitDomainName(vfFoldASCII(anc))
+			if len(a) > len(n) {
+				return false
+			}
+			for i := 1; i <= len(a); i++ {
+				if n[len(n)-i] != a[len(a)-i] {
+					return false
+				}
+			}
+			return true
+		}
+		cutName := "c-" + c.Q1.Name
+		if _, ok := dns.IsDomainName(cutName); ok && violation == "" {
+			sig := func(owner string, covered uint16) *dns.RRSIG {
+				return &dns.RRSIG{Hdr: dns.RR_Header{Name: owner, Rrtype: dns.TypeRRSIG, Class: c.Q1.Qclass, Ttl: 300}, TypeCovered: covered, Algorithm: dns.ECDSAP256SHA256, Labels: uint8(dns.CountLabel(owner)), OrigTtl: 300,
+					Expiration: uint32(time.Now().Add(24 * time.Hour).Unix()), Inception: uint32(time.Now().Add(-time.Hour).Unix()), KeyTag: 4242, SignerName: "example.", Signature: "Tm90QVJlYWxTaWduYXR1cmVCdXRWYWxpZEJhc2U2NA=="}
+			}
+			proof := new(dns.Msg)
+			proof.SetQuestion(cutName, dns.TypeA)
+			proof.Question[0].Qclass = c.Q1.Qclass
+			proof.Response, proof.Rcode = true, dns.RcodeNameError
+			proof.Ns = []dns.RR{
+				&dns.SOA{Hdr: dns.RR_Header{Name: "example.", Rrtype: dns.TypeSOA, Class: c.Q1.Qclass, Ttl: 300}, Ns: "ns.example.", Mbox: "h.example.", Serial: 1, Refresh: 3600, Retry: 600, Expire: 86400, Minttl: 300},
+				sig("example.", dns.TypeSOA),
+				&dns.NSEC{Hdr: dns.RR_Header{Name: "example.", Rrtype: dns.TypeNSEC, Class: c.Q1.Qclass, Ttl: 300}, NextDomain: "~.example.", TypeBitMap: []uint16{dns.TypeNS, dns.TypeSOA, dns.TypeRRSIG, dns.TypeNSEC}},
+				sig("example.", dns.TypeNSEC),
+			}
+			if st.RecordNXDomainCut(proof, cutName, "example.", time.Time{}) {
+				notes = append(notes, "cut-recorded")
+				for _, pre := range []string{"", "x.", "x\\."} {
+					l2 := c.Q2
+					l2.Name = pre + "c-" + c.Q2.Name
+					if _, ok := dns.IsDomainName(l2.Name); !ok {
+						continue
+					}
+					allowed := !l2.CD && l2.Qclass == c.Q1.Qclass && below(l2.Name, cutName)
+					// whichever ingress goes first meets no exact entry for this name yet
+					for _, wire := range []bool{c.Client == 0, c.Client != 0} {
+						m, n := ask(l2, wire, 14)
+						if m == nil {
+							continue
+						}
+						if m.Rcode == dns.RcodeNameError {
+							notes = append(notes, "cut-served")
+							if !allowed {
+								fail("cut route (wire=%v): %v was answered NXDOMAIN from the validated cut recorded for %s class %d CD=0 (upstream calls %d) - the cut covers only names at or below it, in its class, for CD=0 clients (differing dimension: %s, prefix %q)", wire, l2, cutName, c.Q1.Qclass, n, c.Dim, pre)
+							}
+						}
+					}
+				}
+			}
+		}
+		// 5. zone failure: a failed zone zf-<Q1> suppresses only names at or below it, label by label
+		z1 := "zf-" + c.Q1.Name
+		if _, ok := dns.IsDomainName(z1); ok && violation == "" && c.Q1.Qclass == dns.ClassINET {
+			st.RecordZoneFailure(dns.Question{Name: "probe." + z1, Qtype: dns.TypeA, Qclass: dns.ClassINET}, z1)
+			for _, pre := range []string{"", "x.", "x\\."} {
+				l2 := c.Q2
+				l2.Name, l2.ECS = pre+"zf-"+c.Q2.Name, ""
+				if _, ok := dns.IsDomainName(l2.Name); !ok {
+					continue
+				}
+				for _, wire := range []bool{false, true} {
+					m, n := ask(l2, wire, 15)
+					if m != nil && m.Rcode == dns.RcodeServerFailure && n == 0 {
+						notes = append(notes, "zone-failure-served")
+						if !below(l2.Name, z1) {
+							fail("zone-failure route (wire=%v): %v was answered SERVFAIL without upstream traffic from the failure of zone %s, which it is not at or below (differing dimension: %s, prefix %q)", wire, l2, z1, c.Dim, pre)
+						}
+					}
+				}
+			}
+		}
 	})
 	return violation, notes
 }
